@@ -10,7 +10,7 @@ import ast
 
 from ..engine import rule
 from ..model import Undecided
-from ..cfg import dotted, call_name, is_call, simple_name, unparse, const_value, contains, enclosing, implied
+from ..cfg import same, dotted, call_name, is_call, simple_name, unparse, const_value, contains, enclosing, implied
 from ..flow import Defs, depends, scoped_defs
 from ..decide import table, ret_kind
 from ..util import component_of, component_expr, keyword, returns_of, calls_in, inside, order_key
@@ -50,7 +50,7 @@ def c16a(ctx):
     tab = ctx.rows(table(fn.node.body, _none_or))
     A = tab.atoms
     defs = Defs(fn.node)
-    names = {k: {n for n, ds in defs.defs.items() for v, sel in ds if sel == k and unparse(v) == 'tile_coord'} for k in range(3)}
+    names = {k: {n for n, ds in defs.defs.items() for v, sel in ds if sel == k and same(v, 'tile_coord')} for k in range(3)}
     xs, ys, zs = (sorted(names[k])[0] if names[k] else '?' for k in range(3))
     ax0, ay0, axl, ayl = _bounds_formula(tab, xs, ys, None, None)
     a_str = [a for a in A if 'isinstance' in a]
@@ -65,7 +65,7 @@ def c16a(ctx):
         cx, cy = component_of(gx, defs), component_of(gy, defs)
         idx_ok = cx is not None and cy is not None and cx[1] == 0 and cy[1] == 1 and cx[0] == cy[0]
         lvl_ok = idx_ok and cx[0] == 'self.grid_sizes[%s]' % zs
-        zlim_ok = unparse(tab.atom_objs[azl[0]].right) == 'self.levels'
+        zlim_ok = same(tab.atom_objs[azl[0]].right, 'self.levels')
         for asg, out, _ in tab.assignments():
             zbad = (not asg[a_in[0]]) if asg[a_str[0]] else (asg[az0[0]] or not asg[azl[0]])
             want = 'None' if (zbad or asg[ax0[0]] or asg[ay0[0]] or not asg[axl[0]] or not asg[ayl[0]]) else 'coord'
@@ -165,7 +165,7 @@ def c16b(ctx):
                   fail='self.layers[...] is indexed with request values before check_request validated them')
     cr = ctx.fn(WMTS + ':WMTSServer.check_request')
     g = cr.cfg
-    for what, pred in (('layer', lambda at: at.op == 'in' and 'request.layer' in unparse(at.left) and unparse(at.right) == 'self.layers'),
+    for what, pred in (('layer', lambda at: at.op == 'in' and 'request.layer' in unparse(at.left) and same(at.right, 'self.layers')),
                        ('matrix-set', lambda at: at.op == 'in' and 'tilematrixset' in unparse(at.left))):
         rs = [r for r in g.find_stmts(lambda s: isinstance(s, ast.Raise)) if g.guarded(r, pred, False)]
         ctx.check(bool(rs), 'WMTSServer.check_request:unknown-%s-raises' % what, 'an unknown %s raises' % what, cr)
@@ -233,15 +233,15 @@ def c16c(ctx):
     lim = None
     for r in raises:
         for at, pol in g.guards_of(r):
-            if at.op == '<' and (unparse(at.left) == 'self.max_output_pixels' or unparse(at.right) == 'self.max_output_pixels'):
+            if at.op == '<' and (same(at.left, 'self.max_output_pixels') or same(at.right, 'self.max_output_pixels')):
                 lim = (r, at, pol)
     if lim is None:
         ctx.bad('WMSServer.check_map_request:pixel-limit', 'no raise on a comparison with self.max_output_pixels: the output size is unbounded', cm)
     else:
         r, at, pol = lim
-        qty = at.right if unparse(at.left) == 'self.max_output_pixels' else at.left
+        qty = at.right if same(at.left, 'self.max_output_pixels') else at.left
         # direction: raise when quantity is on the large side
-        large = (unparse(at.left) == 'self.max_output_pixels') == pol
+        large = (same(at.left, 'self.max_output_pixels')) == pol
         ctx.check(large, 'WMSServer.check_map_request:pixel-limit-direction', 'the request is refused when the pixel count exceeds the limit', cm, g.stmt[r],
                   fail='the pixel limit comparison points the wrong way')
         okq, txt = _area_of(qty, defs, lambda b: unparse(b).endswith('.size'))
@@ -267,8 +267,8 @@ def c16c(ctx):
         ctx.bad('CacheMapLayer._image:tile-limit', 'no raise on a comparison with self.max_tile_limit: one request can fetch any number of tiles', im)
     else:
         r, at, pol = lim
-        qty = at.right if unparse(at.left) == 'self.max_tile_limit' else at.left
-        large = (unparse(at.left) == 'self.max_tile_limit') == pol or (unparse(at.right) == 'self.max_tile_limit') == (not pol)
+        qty = at.right if same(at.left, 'self.max_tile_limit') else at.left
+        large = (same(at.left, 'self.max_tile_limit')) == pol or (same(at.right, 'self.max_tile_limit')) == (not pol)
         ctx.check(large, 'CacheMapLayer._image:tile-limit-direction', 'the request is refused when the tile count reaches/exceeds the limit', im, g.stmt[r])
         def is_grid(b):
             if isinstance(b, ast.Name):
@@ -283,7 +283,7 @@ def c16c(ctx):
         ok = isinstance(g.stmt[r].exc, ast.Call) and simple_name(g.stmt[r].exc) == 'MapBBOXError'
         ctx.check(ok, 'CacheMapLayer._image:raises-bbox-error', 'exceeding the limit raises MapBBOXError', im)
     # tiled_only: exactly one aligned tile
-    t1 = [r for r in raises if g.guarded(r, lambda a: a.op is None and unparse(a.expr) == 'query.tiled_only', True)]
+    t1 = [r for r in raises if g.guarded(r, lambda a: a.op is None and same(a.expr, 'query.tiled_only'), True)]
     ok = len(t1) >= 2 and all(any(g.dominates(r, n) or not g.reaches_avoiding(r, n) for n, x in loads) or True for r in t1)
     one = any(g.guarded(r, lambda a: a.op == '<' and const_value(a.left) == 1 and 'num_tiles' in unparse(a.right), True) for r in t1)
     aligned = any(g.guarded(r, lambda a: a.mentions(lambda y: is_call(y, 'bbox_equals')), False) for r in t1)
@@ -340,7 +340,7 @@ def c16d(ctx):
     for qn in ('mapproxy/cache/tile.py:TileCreator._create_meta_tile', 'mapproxy/cache/tile.py:TileCreator._create_bulk_meta_tile'):
         f = ctx.fn(qn)
         comps = [x for x in f.walk_all() if isinstance(x, (ast.GeneratorExp, ast.ListComp)) and
-                 any(unparse(gen.iter) == 'meta_tile.tiles' for gen in x.generators) and
+                 any(same(gen.iter, 'meta_tile.tiles') for gen in x.generators) and
                  contains(x.elt, lambda y: is_call(y, 'self.is_cached') or (isinstance(y, ast.Name) and y.id == 't'))]
         need = [x for x in comps if contains(x.elt, lambda y: is_call(y, 'self.is_cached')) or
                 isinstance(getattr(x, '_parent', None), ast.Call) and simple_name(x._parent) == 'imap']
@@ -366,9 +366,9 @@ def c16e(ctx):
     for rel, cname in BULK:
         f = ctx.fn('%s:%s.load_tiles' % (rel, cname))
         g = f.cfg
-        loops = [s for s in f.walk() if isinstance(s, ast.For) and unparse(s.iter) == 'tiles']
+        loops = [s for s in f.walk() if isinstance(s, ast.For) and same(s.iter, 'tiles')]
         comps = [c for c in f.walk() if isinstance(c, (ast.ListComp, ast.GeneratorExp, ast.SetComp)) and len(c.generators) == 1 and
-                 unparse(c.generators[0].iter) == 'tiles']
+                 same(c.generators[0].iter, 'tiles')]
         if not loops and not comps:
             ctx.bad('%s.load_tiles:loop' % cname, 'no loop over the tiles', f)
             continue
